@@ -545,7 +545,8 @@ fn exec_tree(case: &Sx) -> Sx {
 }
 
 /// tag 1: Aggregate<T> embedded: insert / merge / merge_ref / insert_and_send_to, then close;
-/// direct-mode type: MutexSink<Aggregate<Direct>> fed through RootSink::merge and MergeOnDrop guards.
+/// direct-mode type: MutexSink<Aggregate<Direct>> fed through RootSink::merge and MergeOnDrop guards (even number of
+/// entries) or a bare Aggregate<Direct> fed through insert_direct (odd).
 /// output: (aggregate (ids of the entries forwarded unaggregated by insert_and_send_to))
 fn exec_embedded(case: &Sx) -> Sx {
     let ty = ty_of_shape(case.arg(0));
@@ -559,6 +560,14 @@ fn exec_embedded(case: &Sx) -> Sx {
         test_metric(agg)
     } else if ty == 2 {
         use metrique_aggregation::traits::RootSink;
+        if es.len() % 2 == 1 {
+            // the same type embedded without a mutex: Aggregate::insert_direct
+            let mut agg = Aggregate::<Direct>::default();
+            for e in &es {
+                agg.insert_direct(to_direct(e));
+            }
+            return Sx::L(vec![enc_agg(ty, &test_metric(agg)), Sx::L(vec![])]);
+        }
         let sink = metrique_aggregation::sink::MutexSink::new(Aggregate::<Direct>::default());
         for e in &es {
             match e.id % 3 {
